@@ -201,6 +201,57 @@ CHECKS.update({
     ),
 })
 
+CHECKS.update({
+    "C10": (
+        "exploration",
+        "runtime monitor on schedules: bitwise per-chain trace hashes of the real Sampler under perturbed schedules vs a single-core reference",
+        "The real parallel Sampler runs with a recording storage backend (hook re-export of the storage traits). Every base configuration "
+        "(preset, num_tune, num_draws, num_chains, seed, target) is run once on one core without interference and then under variants: "
+        "num_cores 1/2/3/16, a different number of chains, seeded yields and sleeps at 17 schedule points placed in the chain loop and the "
+        "controller loop, per-chain density delays and random pause / resume / progress / flush / inspect / wait storms. Every statistic and "
+        "draw value of every record is hashed bitwise; each chain's trace must equal the reference, chains of one run must differ pairwise. "
+        "Evidence counts distinct interleaving signatures (hash of the (role, schedule point) event sequence).",
+        "Schedules are sampled, not enumerated. Runs execute one at a time in the process (global schedule controller). The thorough tier adds a "
+        "ThreadSanitizer build and Miri seeds of the same workload.",
+        "DESIGN.md §3 C10",
+    ),
+    "C11": (
+        "exploration",
+        "runtime monitor on schedules: scripted client commands with call/return log, watchdog + CPU-idle stall oracle with reproduction, prefix / completeness / progress agreement checks",
+        "Random command scripts (storms, abort early / while paused / mid-run, commands after completion, repeated pause and resume) run against "
+        "the real Sampler with num_chains <, =, > num_cores, per-chain delays and perturbed schedules. Every call must return; a run that is not "
+        "aborted ends with exactly num_tune+num_draws records per chain, in order, identical to the uninterrupted run, and the finalized trace "
+        "equals the records; an aborted run returns per-chain prefixes of the uninterrupted run; at quiescent points progress() agrees with the "
+        "trace (finished draws, post-warmup divergences, step totals). A call that does not return within 60 s while the process consumes no "
+        "CPU time is re-run in two fresh processes; only a reproduced stall is a deadlock, any other watchdog expiry is inconclusive.",
+        "Termination is bounded (watchdog), not proven. Scripts end with resume or abort.",
+        "DESIGN.md §3 C11",
+    ),
+    "C12": (
+        "exploration",
+        "runtime monitor on schedules: gates hold a chain at each loop point while pause() is issued; records after pause() returned are counted on a shared logical clock",
+        "Gates on the schedule points hold a chosen chain at each of seven points of its loop (chain start, before init, loop top, before / after "
+        "draw, after record, before try_recv) at a random draw; pause() is issued and returns, the gate is released (systematic placement), "
+        "plus random placements with several held chains and bursts of queued resume / pause commands. The recording backend and the client "
+        "share one logical clock: per chain the number of records between pause-returned and resume-called is <= 1 + queued commands, nothing is "
+        "recorded between two quiescent points of one pause, an unstarted chain has no records, and after resume the final trace is bit-identical "
+        "to the uninterrupted run (checked with the C11 oracles).",
+        "Cases whose gate is never reached are inconclusive. Evidence lists the coverage per pause point.",
+        "DESIGN.md §3 C12",
+    ),
+    "C13": (
+        "fault_enumeration",
+        "fault injection into density / model / storage of the real Sampler; oracle on SamplerWaitResult and on every client call under catch_unwind + watchdog",
+        "Faults: unrecoverable logp error at a chosen evaluation (initialisation, first draw, warmup, warmup/sampling boundary, last draw) in one, "
+        "two or several chains; recoverable logp errors; storage record_sample / finalize / initialize_trace_for_chain errors; Model::math error in "
+        "a chain or in the controller; init_position error; all 500 initial points invalid - crossed with presets, chain index, num_chains vs "
+        "num_cores, schedule perturbation and interleaved user commands (storm, wait, direct abort). Oracles: wait_timeout yields Err (never a "
+        "trace, never a panic in the calling thread, never a hang); recoverable errors end with a complete trace; no client call panics.",
+        "abort() is only required not to panic or hang. Recoverable-error cases on NUTS presets use a fixed step size (known C05 finding in the re-run search).",
+        "DESIGN.md §3 C13",
+    ),
+})
+
 NOT_YET = {}
 
 
